@@ -145,7 +145,7 @@ pub(crate) fn reduce_impl(f: SigNode, depth: usize, env: &mut Uiua) -> UiuaResul
                     }
                 }
                 Primitive::Min => {
-                    if bytes.rank() == 1 {
+                    if depth == 0 && bytes.rank() == 1 {
                         if bytes.meta.is_sorted_up() {
                             env.push(
                                 (bytes.data.first().copied().map(f64::from))
@@ -180,7 +180,7 @@ pub(crate) fn reduce_impl(f: SigNode, depth: usize, env: &mut Uiua) -> UiuaResul
                     }
                 }
                 Primitive::Max => {
-                    if bytes.rank() == 1 {
+                    if depth == 0 && bytes.rank() == 1 {
                         if bytes.meta.is_sorted_up() {
                             env.push(
                                 (bytes.data.last().copied().map(f64::from))
@@ -418,7 +418,7 @@ macro_rules! reduce_math {
                 Primitive::Sub => fast_reduce(xs, 0.0.into(), fill, depth, sub::$f, env)?,
                 Primitive::Mul => fast_reduce(xs, 1.0.into(), fill, depth, mul::$f, env)?,
                 Primitive::Or => fast_reduce(xs, 0.0.into(), fill, depth, or::$f, env)?,
-                Primitive::Min if TID == 0 && xs.rank() == 1 && xs.meta.is_sorted_up() => {
+                Primitive::Min if TID == 0 && depth == 0 && xs.rank() == 1 && xs.meta.is_sorted_up() => {
                     let mut min = (xs.data.iter().find(|x| x.is_sortable()).copied())
                         .unwrap_or(f64::NEG_INFINITY.into());
                     if let Some(fill) = fill {
@@ -426,7 +426,7 @@ macro_rules! reduce_math {
                     }
                     min.into()
                 }
-                Primitive::Min if TID == 0 && xs.rank() == 1 && xs.meta.is_sorted_down() => {
+                Primitive::Min if TID == 0 && depth == 0 && xs.rank() == 1 && xs.meta.is_sorted_down() => {
                     let mut min = (xs.data.iter().rfind(|&&x| x.is_sortable()).copied())
                         .unwrap_or(f64::NEG_INFINITY.into());
                     if let Some(fill) = fill {
@@ -434,7 +434,7 @@ macro_rules! reduce_math {
                     }
                     min.into()
                 }
-                Primitive::Max if TID == 0 && xs.rank() == 1 && xs.meta.is_sorted_up() => {
+                Primitive::Max if TID == 0 && depth == 0 && xs.rank() == 1 && xs.meta.is_sorted_up() => {
                     let mut max = (xs.data.iter().rfind(|&&x| x.is_sortable()).copied())
                         .unwrap_or(f64::NEG_INFINITY.into());
                     if let Some(fill) = fill {
@@ -442,7 +442,7 @@ macro_rules! reduce_math {
                     }
                     max.into()
                 }
-                Primitive::Max if TID == 0 && xs.rank() == 1 && xs.meta.is_sorted_down() => {
+                Primitive::Max if TID == 0 && depth == 0 && xs.rank() == 1 && xs.meta.is_sorted_down() => {
                     let mut max = (xs.data.iter().find(|x| x.is_sortable()).copied())
                         .unwrap_or(f64::NEG_INFINITY.into());
                     if let Some(fill) = fill {
